@@ -308,12 +308,11 @@ class KernExporter(object):
             self.out_data[row_idx, col_idx] = kern_el
             return
         if self.prev_note_time == el.start.t:
-            if self.prev_note_col_idx == col_idx:
-                # Chords in Kern
-                self.out_data[self.prev_note_row_idx, self.prev_note_col_idx] = (
-                    self.out_data[self.prev_note_row_idx, self.prev_note_col_idx]
-                    + " "
-                    + kern_el
+            if self.out_data[self.prev_note_row_idx, col_idx] != ".":
+                # Chords in Kern (the other notes of the chord need not be
+                # the ones handled just before)
+                self.out_data[self.prev_note_row_idx, col_idx] = (
+                    self.out_data[self.prev_note_row_idx, col_idx] + " " + kern_el
                 )
             else:
                 # Same row (start.t) other spline
@@ -324,6 +323,27 @@ class KernExporter(object):
             self.prev_note_row_idx = row_idx
         self.prev_note_col_idx = col_idx
         self.prev_note_time = el.start.t
+
+
+def _pad_stream_gaps(part: spt.Part) -> None:
+    """
+    A spine cannot skip time: put a rest into every gap that is left inside
+    the stream of notes and rests of a (voice, staff) pair (fill_rests only
+    fills the gaps at the start and at the end of a measure).
+    """
+    streams = dict()
+    for el in part.iter_all(spt.GenericNote, include_subclasses=True):
+        if not isinstance(el, spt.GraceNote):
+            streams.setdefault((el.voice, el.staff), []).append(el)
+    for (voice, staff), elements in streams.items():
+        elements.sort(key=lambda el: (el.start.t, el.end.t))
+        reach = elements[0].end.t
+        for el in elements[1:]:
+            if el.start.t > reach:
+                # no note value: the length is written as a rational value
+                rest = spt.Rest(voice=voice, staff=staff, symbolic_duration=dict())
+                part.add(rest, reach, el.start.t)
+            reach = max(reach, el.end.t)
 
 
 def save_kern(
@@ -357,6 +377,7 @@ def save_kern(
     if not part.measures:
         spt.add_measures(part)
     spt.fill_rests(part, measurewise=False)
+    _pad_stream_gaps(part)
     exporter = KernExporter(part)
     out_data = exporter.parse()
     out_data = exporter.trim(out_data)
